@@ -166,7 +166,9 @@ static const char *imports_obj_symbol_table_lookup_by_local_offset(
     imports_obj_elf_print_symbol32(elf_symbol32, (const char *)(symbol_string_table + st_name));
 #endif
 
-    if (offset == (uint32_t)st_value && (st_info >> 4) == 1)
+    // A global symbol, or a (static) function.
+    if (offset == (uint32_t)st_value &&
+        ((st_info >> 4) == 1 || (st_info & 0xf) == 2))
     {
       return (const char *)(symbol_string_table + st_name);
     }
